@@ -30,16 +30,16 @@ P = {
          "Every PDU a real sending daemon hands to the link is checked against the source file on disk (bytes at offset, length caps, in-order first-pass tiling, retransmissions only for requested bytes and every requested in-file byte answered, true metadata/EOF, header identifiers and length). NAK shapes (overlapping, unsorted, empty, beyond EOF, long) are injected before/during/after the first pass by a scripted receiver; in a quarter of the runs the sending user suspends and resumes in the middle of the first pass.",
          "NAK ranges beyond EOF are bounded to a few segments past the end. Trusts the simulator.", "DESIGN.md §5 C07"),
  "C08": ("exploration", "sim", "runtime monitor at the receiver's transport boundary with a scripted sender: every NAK compared with the harness's exact knowledge of delivered bytes; all loss subsets enumerated for small files",
-         "The harness plays the sender and knows exactly what it delivered; every NAK PDU emitted by the real receiver is checked for well-formedness, scope, size limit, and (after EOF) exact coverage of the missing bytes per round; deferred/immediate timing rules are checked on virtual timestamps. All subsets of lost segments/metadata for files of up to 6 segments are enumerated; late duplicates after the end re-create the receive transaction, which is judged for the deferred-procedure rule under a default configuration that differs from the peer's.",
+         "The harness plays the sender and knows exactly what it delivered; every NAK PDU emitted by the real receiver is checked for well-formedness, scope, size limit, and (after EOF) exact coverage of the missing bytes per round; deferred/immediate timing rules are checked on virtual timestamps. All subsets of lost segments/metadata for files of up to 6 segments are enumerated; late duplicates after the end re-create the receive transaction, which is judged for the deferred-procedure rule under a default configuration that differs from the peer's; in part of the runs the receiving user suspends and resumes the transaction between the first two deliveries (resuming is no reason to send a NAK under the deferred procedure).",
          "Rounds are delimited by the harness's own deliveries; arrival orders are sampled beyond the enumerated core.", "DESIGN.md §5 C08"),
  "C09": ("exploration", "pure", "reference-model monitor: the real segment list against a bitset/interval-set model after every operation; bounded-exhaustive sequences + long random walks",
          "All sequences of up to 4 segments over 12 positions and up to 3 over 16 are enumerated; after every merge the returned count, the running total, is_complete for every n and gaps for every window are compared with the set-union model; random walks cover offsets up to 2^64-1.",
          "Uses the cfg-guarded re-export of the crate-private Segments type (hook H2).", "DESIGN.md §5 C09"),
  "C10": ("fault_enumeration", "sim", "runtime monitor: Cancel injected before/after every emission and delivery index, combined with single losses of the handshake PDUs and peer blackout; termination, cancel condition and destination-file rules",
-         "Cancel at sender or receiver at every index of the reference exchanges x modes x closure x single handshake losses x blackout; the oracle checks termination of the cancelling entity within its limits, termination and cancel condition at a reachable peer, that the destination name never exposes partial content, and that nothing is delivered after the receiver has reported the transaction cancelled (one recorded finding: the daemon re-creates a cancelled transaction from late PDUs).",
+         "Cancel at sender or receiver at every index of the reference exchanges x modes x closure x single handshake losses x blackout; the oracle checks termination of the cancelling entity within its limits, termination and cancel condition at a reachable peer, that the destination name never exposes partial content, and that nothing is delivered after the receiver has reported the transaction cancelled (one recorded finding, three symptoms: the daemon re-creates a cancelled transaction from late PDUs); also cancels of suspended transactions, cancel followed by suspend/resume with a silent peer, and cancels issued late in a transaction's life (after a suspension longer than limit x ACK timeout) with the first handshake PDU lost.",
          "A cancel may legitimately lose the race against completion; the cancel-condition rule applies only to runs where the receiver never reported success.", "DESIGN.md §5 C10"),
  "C11": ("exploration", "sim", "runtime monitor over multi-daemon executions with many overlapping transactions, stray/replayed/hostile PDUs: per-transaction outcome, tagged content, id distinctness, daemon liveness probe",
-         "2-3 real daemons with up to tens of overlapping transfers in both directions and mixed modes under random loss, with injected stray PDUs and raw bytes, sequence numbers starting just below the wrap of their width, and a default configuration that differs from the per-entity one (a receive transaction started by a stray must show its source entity's timing) (virtual-time simulator), plus a real-time lane on a multi-thread runtime with a slow receiving filestore (back-pressure under real parallelism; runs during which the machine stalled are repeated, not judged); each transaction must deliver its own tagged content and report its own outcome, Put ids must be distinct, and every daemon must still serve a fresh Put and Report at the end.",
+         "2-3 real daemons with up to tens of overlapping transfers in both directions and mixed modes under random loss, with injected stray PDUs and raw bytes, sequence numbers starting just below the wrap of their width, and a default configuration that differs from the per-entity one (a receive transaction started by a stray must show its source entity's timing) (virtual-time simulator), plus a real-time lane on a multi-thread runtime with a slow receiving filestore (back-pressure under real parallelism; runs during which the machine stalled are repeated, not judged); each transaction must deliver its own tagged content and report its own outcome, Put ids - also those of fire-and-forget Puts, as announced in Transaction indications - must be distinct, a sending entity reports nothing more for a transfer after its success report (response PDUs are re-delivered to senders whose transaction has just ended), and every daemon must still serve a fresh Put and Report at the end.",
          "Schedules are sampled by seed, latency pattern and burst/paced mode.", "DESIGN.md §5 C11"),
  "C12": ("exploration", "fs", "runtime monitor in a chroot jail: native-path containment + full tree snapshot of the sentinel parent before/after every operation, names enumerated over the hostile alphabet",
          "Every name of up to 5 components over {a, ., .., empty, leading /, the root path, a sibling extending the root's name} is fed to every filestore operation; the computed native path must stay inside the root and the sentinel tree outside the root must be unchanged (escaping reads are caught by unique sentinel contents).",
@@ -57,16 +57,16 @@ P = {
          "Every truncation length of every corpus PDU following every longer corpus PDU, CRC on/off, lock-step over 127.0.0.1; the transport's result must equal PDU::decode of exactly the datagram's bytes.",
          "Needs loopback UDP; a receive that does not return in 5 s is inconclusive.", "DESIGN.md §5 C16"),
  "C17": ("exploration", "pure+sim", "reference-model monitor of Counter/Timer under the paused clock, and timestamp monitor of retransmissions, limit faults and handler actions in simulated blackouts over a (T, L) grid",
-         "(a) random operation sequences on the real Counter/Timer compared with a reference counter after every step; (b) for a peer silent from every point of the exchange: exact number and spacing of EOF/Finished/NAK retransmissions, fault no earlier than L*T, reset on progress, the configured handler action (ignore/suspend/abandon/cancel) observed on the link and at the user, also with a different handler per condition and with timer configurations in which the inactivity limit precedes the ACK limit (two conditions compete at the sender), and a reached inactivity limit must be declared under its own condition.",
+         "(a) random operation sequences on the real Counter/Timer compared with a reference counter after every step; (b) for a peer silent from every point of the exchange: exact number and spacing of EOF/Finished/NAK retransmissions, fault no earlier than L*T, reset on progress, the configured handler action (ignore/suspend/abandon/cancel) observed on the link and at the user, also with a different handler per condition and with timer configurations in which the inactivity limit precedes the ACK limit (two conditions compete at the sender), and a reached inactivity limit must be declared under its own condition; further families: a Prompt early in a data phase longer than the ACK timeout, a peer that only sends Keep Alive PDUs (no inactivity fault while it is heard), a sender suspended while it waits for the ACK of its EOF (suspended time counts neither towards the next retransmission nor towards the limit).",
          "Timing tolerance tau = 50 ms on the late side only (tokio timer granularity); never-earlier is exact.", "DESIGN.md §5 C17"),
  "C18": ("fault_enumeration", "sim", "runtime monitor of PDU kinds per direction, termination points and closure outcome in unacknowledged mode under every single and double loss",
-         "Closure on/off x every single and double loss over the exchange x sizes incl. 0 x zero-run/neutral content: no ACK/NAK/KeepAlive from the receiver; without closure both end on EOF; with closure the receiver's Finished carries the true outcome, the sender waits for it, reports it and ends; incomplete data or missing metadata is never reported Complete.",
+         "Closure on/off x every single and double loss over the exchange x sizes incl. 0 x zero-run/neutral content: no ACK/NAK/KeepAlive from the receiver; without closure both end on EOF; with closure the receiver's Finished carries the true outcome, the sender waits for it, reports it and ends; incomplete data or missing metadata is never reported Complete. Further: user cancels at either entity with closure (the sender still waits for Finished and reports it; a cancelled, still open receiver is not revived by the EOF in flight), destinations that cannot be opened (a receiver given metadata and EOF always reports an outcome), and the direction rule over the unacknowledged runs of other properties' workloads.",
          "Which error condition accompanies an incomplete delivery is not judged.", "DESIGN.md §5 C18"),
  "C19": ("exploration", "sim", "runtime monitor of the suspended window: PDUs emitted and timer faults between the Suspended indication and Resume, at every index of the exchange, various suspension lengths; completion after resume",
-         "Suspend/Resume at sender or receiver before/after every emission/delivery index, suspension lengths 0, T/2, 3*L*T, with single losses: inside the window no Metadata/FileData/EOF/NAK/Finished beyond an in-flight slack of 2 and no timer fault; after resume the transfer completes as in C02.",
+         "Suspend/Resume at sender or receiver before/after every emission/delivery index, suspension lengths 0, T/2, 3*L*T, with single losses: inside the window no Metadata/FileData/EOF/NAK/Finished beyond an in-flight slack of 2 and no timer fault; after resume the transfer completes as in C02; in a third of the random runs the sending user prompts during the suspension.",
          "In-flight slack of 2 PDUs (capacity-1 channel to the transport).", "DESIGN.md §5 C19"),
  "C20": ("exploration", "sim", "runtime monitor comparing every progress figure (KeepAlive PDUs, Fault/Resumed/Abandon indications) with the harness's own count of delivered distinct bytes / highest offset emitted",
-         "Prompts (KeepAlive) at every point, suspend/resume and blackout-induced faults at every index, with retransmissions and duplicates: receiver progress equals distinct bytes delivered, sender progress equals the highest offset emitted (or one tile in flight), both <= file size and non-decreasing.",
+         "Prompts (KeepAlive) at every point, suspend/resume and blackout-induced faults at every index, with retransmissions and duplicates: receiver progress equals distinct bytes delivered, sender progress equals the highest offset emitted (or one tile in flight), both <= file size and non-decreasing; a scripted foreign sender delivers misaligned, overlapping data (a quarter of them announcing an unbounded file), and the same oracle runs over suspend/primitive-sequence/late-copy/adaptive-loss workloads of other properties.",
          "Paced mode: everything delivered before the figure was reported has been processed.", "DESIGN.md §5 C20"),
 }
 
